@@ -1,3 +1,5 @@
+import Model.EvalSoftFloat
+import Generated.C10Facts
 /-! C10: the argument scanner of `cmdline.(*CmdLine).Parse` (cmdline.go:86-195), option-table construction
     (cmdline.go:225-249, option.go:36-66), `@file` expansion with the `seen` guard, and the typed `Set` layer of
     `GeneralValue` (values.go) for the bool / integer / string kinds.  Strings are byte lists (bytes as `Nat`), because
@@ -346,6 +348,136 @@ def orcFind (orc : Oracle) (tag : Nat) (s : Str) : Option String :=
   | some e => some e.2.2
   | none => none
 
+/-- fixed-width lower-case hexadecimal text of a bit pattern (`%08x` / `%016x`) -/
+def hexPadAux : Nat → Nat → List Char → List Char
+  | 0, _, acc => acc
+  | w + 1, n, acc => hexPadAux w (n / 16) ((if n % 16 < 10 then Char.ofNat (48 + n % 16) else Char.ofNat (87 + n % 16)) :: acc)
+
+def hexPad (width n : Nat) : String := String.ofList (hexPadAux width n [])
+
+/-- `math.NaN()` is the bit pattern 0x7FF8000000000001 in Go; converted to float32 it is 0x7fc00000 -/
+def goNaN (f : SoftFloat.Fmt) : Nat := if f = SoftFloat.f64 then 0x7FF8000000000001 else 0x7fc00000
+
+/-- the value `strconv.ParseFloat(s, 32|64)` yields, converted to the declared float type, as the text of its bit
+    pattern: COMPUTED by the IEEE-754 model for decimal literals, `inf`/`infinity`/`nan` (`SoftFloat.parse`: exact
+    rational arithmetic, round to nearest even, overflow = `ErrRange` = refused); only for the texts that model leaves
+    `outside` — hexadecimal floats and literals with `_` — the result is looked up in the per-line oracle -/
+def floatVal (orc : Oracle) (f : SoftFloat.Fmt) (s : Str) : Option String :=
+  match SoftFloat.parse f s with
+  | .ok bits => some (hexPad (if f = SoftFloat.f64 then 16 else 8) (if SoftFloat.isNaN f bits then goNaN f else bits))
+  | .err => none
+  | .outside => orcFind orc (if f = SoftFloat.f64 then tagF64 else tagF32) s
+
+/-! ### `time.ParseDuration` (time/format.go), transcribed: `[-+]?([0-9]*(\.[0-9]*)?[a-z]+)+` with its overflow rules; the
+    fraction goes through float64 exactly as in the source (`uint64(float64(f) * (float64(unit) / scale))`, `scale` built
+    by repeated `scale *= 10`), computed on bit patterns by the IEEE-754 model -/
+
+def dIsDigit (c : Nat) : Bool := 48 ≤ c && c ≤ 57
+
+/-- `leadingInt`: `none` = overflow -/
+def leadingInt : Str → Nat → Option (Nat × Str)
+  | [], x => some (x, [])
+  | c :: t, x =>
+    if dIsDigit c then
+      (if x > 2 ^ 63 / 10 then none
+       else if x * 10 + (c - 48) > 2 ^ 63 then none
+       else leadingInt t (x * 10 + (c - 48)))
+    else some (x, c :: t)
+
+/-- float64(n) for a natural number -/
+def f64OfNat (n : Nat) : Nat := SoftFloat.ofRat SoftFloat.f64 false n 1
+
+/-- `leadingFraction`: digits after the point as an integer `x` and `scale` (a float64, as bits) with value `x / scale`;
+    digits behind an overflow are skipped -/
+def leadingFraction : Str → Nat → Nat → Bool → Nat × Nat × Str
+  | [], x, sc, _ => (x, sc, [])
+  | c :: t, x, sc, ov =>
+    if dIsDigit c then
+      (if ov then leadingFraction t x sc true
+       else if x > (2 ^ 63 - 1) / 10 then leadingFraction t x sc true
+       else if x * 10 + (c - 48) > 2 ^ 63 then leadingFraction t x sc true
+       else leadingFraction t (x * 10 + (c - 48)) (SoftFloat.mul SoftFloat.f64 sc (f64OfNat 10)) false)
+    else (x, sc, c :: t)
+
+/-- the unit: everything up to the next `.` or digit -/
+def takeUnit : Str → Str × Str
+  | [] => ([], [])
+  | c :: t => if c = 46 || dIsDigit c then ([], c :: t) else (c :: (takeUnit t).1, (takeUnit t).2)
+
+/-- `unitMap`: ns, us, µs (U+00B5), μs (U+03BC), ms, s, m, h in nanoseconds -/
+def unitOf (u : Str) : Option Nat :=
+  if u = [110, 115] then some 1
+  else if u = [117, 115] || u = [194, 181, 115] || u = [206, 188, 115] then some 1000
+  else if u = [109, 115] then some 1000000
+  else if u = [115] then some 1000000000
+  else if u = [109] then some 60000000000
+  else if u = [104] then some 3600000000000
+  else none
+
+/-- `uint64(x)` for a finite non-negative float64: truncation -/
+def truncU (b : Nat) : Nat :=
+  match SoftFloat.decode SoftFloat.f64 b with
+  | .fin _ m e => if 0 ≤ e then m * 2 ^ e.toNat else m / 2 ^ (-e).toNat
+  | _ => 0
+
+/-- one `number unit` group in front of `s` (non-empty), up to the addition to the running total `d` (uint64 arithmetic:
+    this addition is the one that can wrap, so it is taken modulo 2^64): the new total and the rest of the text -/
+def durGroupRaw (s : Str) (d : Nat) : Option (Nat × Str) :=
+  match s with
+  | [] => none
+  | c :: _ =>
+    if !(c = 46 || dIsDigit c) then none else
+    match leadingInt s 0 with
+    | none => none
+    | some (v, s1) =>
+      let fr : Nat × Nat × Str × Bool :=
+        match s1 with
+        | 46 :: t => ((leadingFraction t 0 (f64OfNat 1) false).1, (leadingFraction t 0 (f64OfNat 1) false).2.1,
+                      (leadingFraction t 0 (f64OfNat 1) false).2.2,
+                      (leadingFraction t 0 (f64OfNat 1) false).2.2.length != t.length)
+        | _ => (0, f64OfNat 1, s1, false)
+      if s1.length == s.length && !fr.2.2.2 then none else
+      if (takeUnit fr.2.2.1).1 = [] then none else
+      match unitOf (takeUnit fr.2.2.1).1 with
+      | none => none
+      | some unit =>
+        if v > 2 ^ 63 / unit then none else
+        let v2 := if fr.1 > 0 then
+            v * unit + truncU (SoftFloat.mul SoftFloat.f64 (f64OfNat fr.1)
+              (SoftFloat.div SoftFloat.f64 (f64OfNat unit) fr.2.1))
+          else v * unit
+        if v2 > 2 ^ 63 then none else some ((d + v2) % 2 ^ 64, (takeUnit fr.2.2.1).2)
+
+/-- … and the check `d > 1<<63` behind the addition -/
+def durGroup (s : Str) (d : Nat) : Option (Nat × Str) :=
+  match durGroupRaw s d with
+  | none => none
+  | some p => if p.1 > 2 ^ 63 then none else some p
+
+/-- the loop over the groups; the fuel is the length of the text (every round consumes at least the unit) -/
+def durLoop : Nat → Str → Nat → Option Nat
+  | 0, s, d => if s = [] then some d else none
+  | fuel + 1, s, d =>
+    if s = [] then some d else
+    match durGroup s d with
+    | none => none
+    | some p => durLoop fuel p.2 p.1
+
+/-- `time.ParseDuration(s)` in nanoseconds; `none` = any error -/
+def parseDuration (s : Str) : Option Int :=
+  let neg := s.head? == some 45
+  let r := if s.head? == some 45 || s.head? == some 43 then s.tail else s
+  if r = [48] then some 0
+  else if r = [] then none
+  else match durLoop r.length r 0 with
+    | none => none
+    | some d =>
+      if neg then some (if d = 2 ^ 63 then -((2 ^ 63 : Nat) : Int) else -(d : Int))
+      else if d > 2 ^ 63 - 1 then none else some (d : Int)
+
+/-- the text of the `time.Duration` a `Set` stores (nanoseconds, decimal) -/
+def durVal (s : Str) : Option String := (parseDuration s).map toString
+
 /-- "reject": the one string the harness's logging `Value` refuses -/
 def strReject : Str := [114, 101, 106, 101, 99, 116]
 
@@ -358,9 +490,9 @@ def typed (orc : Oracle) : Base → Str → Option String
   | .bool, s => (parseBool s).map toString
   | .int b, s => (parseInt b s).map toString
   | .uint b, s => (parseUint b s).map toString
-  | .f32, s => orcFind orc tagF32 s
-  | .f64, s => orcFind orc tagF64 s
-  | .dur, s => orcFind orc tagDur s
+  | .f32, s => floatVal orc SoftFloat.f32 s
+  | .f64, s => floatVal orc SoftFloat.f64 s
+  | .dur, s => durVal s
   | .str, s => some (hexOf s)
   | .log, s => if s = strReject then none else some (hexOf s)
   | .wbool, s => (parseBool s).map toString
@@ -466,8 +598,8 @@ def fatalIfError (isNil : Bool) : Option Unit := if isNil then some () else none
 A variable holds a list of typed values in canonical text (exactly one for a scalar).  `setVar` is one call of
 `Value.Set` on one variable, case by case as the type switch of values.go: the scalar kinds overwrite, the slice kinds
 append; bool through `strconv.ParseBool`, the integer kinds through `strconv.ParseInt/ParseUint(str, 0, bits)` with the
-bit size of the kind (so the narrowing conversion is exact), string as is; float and duration acceptance and values are
-the parameter `orc`.  (For `*bool`, `*int64`, `*uint64`, `*float64` and `*time.Duration` the Go code assigns the result
+bit size of the kind (so the narrowing conversion is exact), string as is; float and duration values are computed by `floatVal` /
+`durVal`; the parameter `orc` only serves float texts outside `SoftFloat.parse`.  (For `*bool`, `*int64`, `*uint64`, `*float64` and `*time.Duration` the Go code assigns the result
 of the failed conversion before returning the error; the error is fatal, so that store is never observed.) -/
 
 abbrev Var := List String
@@ -484,14 +616,14 @@ def setVar (orc : Oracle) (k : Kind) (cur : Var) (raw : Str) : Option Var :=
   | .int bits, true => (parseInt bits raw).map (fun v => cur ++ [toString v])         -- *[]int, *[]int8 … *[]int64
   | .uint bits, false => (parseUint bits raw).map (fun v => [toString v])             -- *uint, *uint8 … *uint64
   | .uint bits, true => (parseUint bits raw).map (fun v => cur ++ [toString v])       -- *[]uint, *[]uint8 … *[]uint64
-  | .f32, false => (orcFind orc tagF32 raw).map (fun v => [v])                        -- *float32
-  | .f32, true => (orcFind orc tagF32 raw).map (fun v => cur ++ [v])
-  | .f64, false => (orcFind orc tagF64 raw).map (fun v => [v])                        -- *float64
-  | .f64, true => (orcFind orc tagF64 raw).map (fun v => cur ++ [v])
+  | .f32, false => (floatVal orc SoftFloat.f32 raw).map (fun v => [v])                        -- *float32
+  | .f32, true => (floatVal orc SoftFloat.f32 raw).map (fun v => cur ++ [v])
+  | .f64, false => (floatVal orc SoftFloat.f64 raw).map (fun v => [v])                        -- *float64
+  | .f64, true => (floatVal orc SoftFloat.f64 raw).map (fun v => cur ++ [v])
   | .str, false => some [hexOf raw]                                                   -- *string
   | .str, true => some (cur ++ [hexOf raw])                                           -- *[]string
-  | .dur, false => (orcFind orc tagDur raw).map (fun v => [v])                        -- *time.Duration
-  | .dur, true => (orcFind orc tagDur raw).map (fun v => cur ++ [v])                  -- *[]time.Duration
+  | .dur, false => (durVal raw).map (fun v => [v])                        -- *time.Duration
+  | .dur, true => (durVal raw).map (fun v => cur ++ [v])                  -- *[]time.Duration
   | .log, _ => if raw = strReject then none else some (cur ++ [hexOf raw])            -- the harness's logging Value
   | .wbool, false => (parseBool raw).map (fun b => [toString b])                      -- a bool behind a user Value
   | .wbool, true => (parseBool raw).map (fun b => cur ++ [toString b])
@@ -541,13 +673,14 @@ def renderStore (orc : Oracle) (includeDefault : Bool) (decls : List Decl) : Out
 /-! ### `loadArgsFromFile` (cmdline.go:258-275) on the bytes of a file
 
 `os.Open`, then `bufio.NewScanner(file)` with the default split function and the default buffer, then `scanner.Err()`.
-The scanner's buffer grows to `bufio.MaxScanTokenSize` = 64 KiB and no further: a line whose bytes up to the next `\n`
+The scanner's buffer grows to `bufio.MaxScanTokenSize` (64 KiB in every toolchain so far) and no further: a line whose bytes up to the next `\n`
 (or up to the end of the file) fill the whole buffer makes `Scan` stop with `ErrTooLong`, which `loadArgsFromFile`
 returns and `Parse` turns into the fatal exit.  (Without the `scanner.Err()` test the lines read so far would be
 used and the rest of the file silently dropped.) -/
 
-/-- `bufio.MaxScanTokenSize` -/
-def maxToken : Nat := 65536
+/-- `bufio.MaxScanTokenSize` of the Go toolchain in use: read from the built harness on every run
+    (`Generated/C10Facts.lean`), not copied -/
+def maxToken : Nat := Generated.C10.maxScanTokenSize
 
 /-- `n` = bytes of the current line seen so far; true iff some line reaches `maxToken` bytes before its `\n` / the end -/
 def tooLongAux : Str → Nat → Bool
